@@ -72,6 +72,15 @@ SEEDS = {
     "C10g": ("C10", "shift_xx returns self when the sex cannot be inferred; genemetrics then writes NaN columns into the caller's array", "an array without chrX bins, sex not given, genemetrics with segments that carry extra columns", "missed", "C10 builds an autosome-only workspace on a third of the seeds and lets genemetrics take the column-rich segments"),
     "C12g": ("C12", "subdivide's last bin end computed as start + int(nbins * (span / nbins))", "regions cut into >= 11 bins with particular lengths", "caught", None),
     "C14g": ("C14", "enumerate_changes compares levels with np.isclose", "the cn filter with adjacent copy numbers >= 1e5 that differ by 1", "missed", "C14 now lifts whole tables to a base copy number of 1e5 / 1e6"),
+    "C02h": ("C02", "absolute_threshold rounds r*2^log2 to 6 decimals before the ceiling above the last threshold", "a log2 within ~1e-7 above an integer crossing log2(k/r)", "caught", None),
+    "C09h": ("C09", "log2 of the depth clipped at -20 (depth.clip(lower=2^-20)) in both algorithms", "a bin whose counted reads give a depth below 2^-20, i.e. more than a million bin bases per aligned base", "missed", "C09 now draws, one case in six, a 3e8-base contig with 1e8-base bins and 1..8 reads"),
+    "C13h": ("C13", "do_access subtracts all exclude files in one pass after heapq.merge of their coordinate tuples", ">= 2 exclude files with interleaved rows on sequence names whose natural and string orders differ", "caught", None),
+    "C15h": ("C15", "compare_sex_chromosomes caps the per-chromosome ratio with min(ratio, 1e4), turning the numpy bool into a Python bool that ~ maps to -2", "a clean male sample without chrY rows and enough chrX bins for the ratio to reach the cap", "caught", None),
+    "C16h": ("C16", "segment_mean treats weights whose sum is np.isclose to 0 as absent", "a gene whose bin weights sum to less than 1e-8 (unequal weights, unequal log2)", "missed", "C16 and C19 now multiply every weight of a case by a common factor (1e-10, 1e-12, 1e6 / 2^-40, 2^-34, 2^20)"),
+    "C18h": ("C18", "read_vcf casts start/end to int32", "a VCF record at POS >= 2^31", "missed", "C18 now moves records and ranges up the contig by 2.4e8 or 2^31+7 on a third of the cases"),
+    "C19h": ("C19", "weighted_median's exactly-half tolerance scaled by log2(n) instead of n", "even length >= ~110 with a common non-dyadic weight and distinct middle values", "missed", "C19 now draws vectors of 100..3001 values for the weighted estimators, equal weights from ten constants"),
+    "C20h": ("C20", "merge_samples compares bin coordinates with np.allclose", "a later sample whose bins differ by 1 bp at coordinates >= 1e5", "missed", "C20 now places the shared bins of a jtv/cdt case at 2.4e8 or 2^31+7 on a third of the cases"),
+
 }
 
 
